@@ -10,3 +10,21 @@ pub trait ExToString {
 #[verifier::reject_recursive_types(L)]
 #[verifier::reject_recursive_types(R)]
 pub struct ExEither<L, R>(either::Either<L, R>);
+// A-STD (trusted): String::from(&str) / (&str).into() copy the content
+#[verifier::external_body]
+pub broadcast proof fn axiom_string_from_str<'a>(s: &'a str, r: String)
+    requires #[trigger] call_ensures(<&'a str as core::convert::Into<String>>::into, (s,), r)
+    ensures r@ == s@
+{}
+// A-STD (trusted): str::to_string() copies the content (ToString is a blanket impl over Display, no vstd contract)
+#[verifier::external_body]
+pub broadcast proof fn axiom_str_to_string(s: &str, r: String)
+    requires #[trigger] call_ensures(<str as std::string::ToString>::to_string, (s,), r)
+    ensures r@ == s@
+{}
+// A-FMT (trusted): Ident's Display impl writes exactly its `name` (crates/ast/src/base.rs), so to_string() is the name
+#[verifier::external_body]
+pub broadcast proof fn axiom_ident_to_string<'a>(s: &crate::nitrogql_ast::base::Ident<'a>, r: String)
+    requires #[trigger] call_ensures(<crate::nitrogql_ast::base::Ident<'a> as std::string::ToString>::to_string, (s,), r)
+    ensures r@ == s.name@
+{}
